@@ -127,6 +127,23 @@ def one_each(ctx, R):
         R.check(n == N, "C07.ONE-EACH", "tex %s|link" % d, where(g), "one link per datum", "TikZ add_links emits %d links for %d data" % (n, N))
 
 
+def _is_timeline_class(P, cls):
+    """Timeline itself or a class derived from it (intermediate base classes of the back-ends included)."""
+    try:
+        base = P.cls(TL)
+    except Exception:
+        return cls.qual.startswith("timeline.Timeline")
+    return base in P.mro(cls)
+
+
+def _ctor_helper(fn, f):
+    """A private module-level function of the constructor's module (option merging and the like), or a function nested in one."""
+    top = fn
+    while top.parent is not None:
+        top = top.parent
+    return top.cls is None and top.module is f.module and top.name.startswith("_") and not top.is_lambda
+
+
 @rule("C07.INIT-ORDER")
 def init_order(ctx, R):
     P = ctx.P
@@ -146,8 +163,8 @@ def init_order(ctx, R):
         R.check(a.args and ntext(a.args[0]) == f.params[1] and b.args and ntext(b.args[0]) == f.params[1], "C07.INIT-ORDER", f.qual + "|same data", where(f), "both see the caller's data", "parse_items/init_axis are not given the caller's data list")
         tgt = pi[0].ast.targets[0] if isinstance(pi[0].ast, ast.Assign) else None
         R.check(tgt is not None and ntext(tgt) == "%s.items" % f.params[0], "C07.INIT-ORDER", f.qual + "|items stored", where(f), "self.items = parse_items(...)", "the parsed items are not stored in self.items")
-    # direction attribute agrees with the option
-    ev = new_eval(P, inline_filter=lambda fn: fn is f)
+    # direction attribute agrees with the option (private module-level helpers of the constructor are part of it)
+    ev = new_eval(P, inline_filter=lambda fn: fn is f or _ctor_helper(fn, f))
     st = ev.new_state(f)
     s = Opaque("self", cls=P.cls(SVG), kind="obj")
     ev.assume("truth(OPTS)", True)
@@ -179,7 +196,7 @@ def export_calls(ctx, R):
             if isinstance(fv, Closure) and fv.func.qual == TL + ".compute":
                 ncomp[0] += 1
                 return Seq("tuple", [Opaque("NODES%d" % ncomp[0], kind="obj"), Opaque("RENDERER%d" % ncomp[0], kind="obj")])
-            if isinstance(fv, Closure) and fv.func.cls is not None and fv.func.name.startswith("add_") and fv.func.cls.qual.startswith("timeline.Timeline"):
+            if isinstance(fv, Closure) and fv.func.cls is not None and fv.func.name.startswith("add_") and _is_timeline_class(P, fv.func.cls):
                 hn, hr = st_.heap.get(("self", "nodes")), st_.heap.get(("self", "renderer"))
                 seen_state.append((fv.func.name, key(hn) if hn is not None else None, key(hr) if hr is not None else None))
                 return NONE
@@ -195,7 +212,8 @@ def export_calls(ctx, R):
         stx.heap[("self", "options")] = DictV({"showTicks": Const(True), "initialWidth": Num.atom("IW"), "initialHeight": Num.atom("IH")}, fallback="OPT")
         evx.call_closure(Closure(f, None, selfv=sx), [], {}, stx)
         stale = [t for t in seen_state if t[1] != "NODES1" or t[2] != "RENDERER1"]
-        okc = len(comp) >= 1 and ncomp[0] == 1 and bool(seen_state) and not stale and not cfg.exists_path(cfg.entry, cfg.exit, avoid=comp)
+        # (compute() may be called by export itself or by a method export calls: what counts is what the emitters see)
+        okc = ncomp[0] == 1 and bool(seen_state) and not stale and (not comp or not cfg.exists_path(cfg.entry, cfg.exit, avoid=comp))
         R.check(okc, "C07.EXPORT-CALLS", f.qual + "|compute first", where(f), "every add_* of this export sees the nodes and renderer of this export's own compute()", "export does not lay out first: compute() runs %d time(s) and the emitters see %s (expected the nodes/renderer returned by this export's compute()): the drawing would use stale or missing nodes" % (ncomp[0], stale[:3] or seen_state[:2]))
         # which emitters run, how often, and under which condition: read from the evaluated export (wherever the calls are
         # written: in export itself, in a template method of the base class, in a loop over bound methods), once with
@@ -206,7 +224,7 @@ def export_calls(ctx, R):
             def hook2(fv, args, kwargs, node, st_):
                 if isinstance(fv, Closure) and fv.func.qual == TL + ".compute":
                     return Seq("tuple", [Opaque("NODES", kind="obj"), Opaque("RENDERER", kind="obj")])
-                if isinstance(fv, Closure) and fv.func.cls is not None and fv.func.name.startswith("add_") and fv.func.cls.qual.startswith("timeline.Timeline"):
+                if isinstance(fv, Closure) and fv.func.cls is not None and fv.func.name.startswith("add_") and _is_timeline_class(P, fv.func.cls):
                     st_.events.append(("mark", fv.func.name, node))
                     return NONE
                 if isinstance(fv, Ext):
